@@ -13,6 +13,13 @@ UNIT = dict(
     extract=[
         dict(id="Watcher", kind="type", src=F, name="Watcher", structural=True),
         dict(id="WatchedPath", kind="type", src="crates/lib/src/watched_path.rs", name="WatchedPath", structural=True, add_derive=["Copy"]),
+        dict(id="Watcher::create", kind="fn", src=F, impl="impl Watcher", name="create",
+             rules=dict(outline=[(".map_err(|err| CriticalError::FsWatcherInit", ".vx_init_err(self", "whole")], pre_subst=[
+                 ("use notify::{Config, Watcher as _};", ""),
+                 ("notify::RecommendedWatcher::new(f, Config::default())", "vx_native_watcher(f)"),
+                 ("notify::PollWatcher::new(f, Config::default().with_poll_interval(delay))", "vx_poll_watcher(f, delay)"),
+                 (".map(|w| Box::new(w) as _)", ""),
+             ])),
         dict(id="notify_multi_path_errors", kind="fn", src=F, name="notify_multi_path_errors",
              rules=dict(for_desugar=[0], subst=[("notify::Error", "NotifyError"), ("PathBuf", "PathS")], pre_subst=[
                  ("take(&mut err.paths)", "vx_take_paths(&mut err)"),
